@@ -3835,6 +3835,23 @@ def printctx_programs(ctx):
     return [PRINTCTX_PRE + b + PRINTCTX_POST for b, v in zip(bodies, ok) if v]
 
 
+# Re-quoted string literals (spec/JsStrQuote.tla, shared with C09 which judges the syntax): here the VALUE is observed.
+# x0=Q..Q;x1=Q..Q;... (8 per program; the globals are part of the observation), quick: a seeded quarter + every hot state.
+def strquote_value_programs(ctx):
+    import c09
+    progs = [p.decode('latin1') for p in c09.strquote_programs(ctx.rnd, False)]
+    if ctx.quick():
+        hot = [p for p in progs if re.search(r'(\$|24\}?|44)(\\?\{|\\x7b|\\u007B|\\u\{7b\})', p)]
+        progs = sorted(set(hot + [p for p in progs if ctx.rnd.random() < 0.25]))
+    progs = [p for p in progs if not excluded(p)]
+    ok = valid_js(ctx, progs)
+    progs = [p for p, v in zip(progs, ok) if v]
+    out = []
+    for i in range(0, len(progs), 8):
+        out.append('\n'.join('x%d=%s' % (k, p[2:]) for k, p in enumerate(progs[i:i + 8])))
+    return out
+
+
 def families(ctx, exe):
     quick = ctx.quick()
     rnd = ctx.rnd
@@ -3853,6 +3870,7 @@ def families(ctx, exe):
     fams.append(dict(name='quotes', sources=quote_programs(ctx), nenv=1, probe=0, batched=True))
     fams.append(dict(name='scaling', sources=scaling_programs(ctx), nenv=1, probe=0))
     fams.append(dict(name='with', sources=with_programs(ctx), nenv=1, probe=0))
+    fams.append(dict(name='strquote', sources=strquote_value_programs(ctx), nenv=1, probe=0, batched=True))
     fams.append(dict(name='printctx', sources=printctx_programs(ctx), nenv=1, probe=0))
     fams.append(dict(name='corpus', sources=corpus_programs(ctx), nenv=3 if quick else 4, probe=1))
     return fams
